@@ -4,9 +4,11 @@ import (
 	"encoding/hex"
 	"errors"
 	"io"
+	"net"
 	"strconv"
 	"strings"
 	"sync"
+	"syscall"
 	"time"
 
 	"github.com/scrapli/scrapligo/transport"
@@ -28,7 +30,13 @@ const (
 	LossNone LossKind = iota
 	LossEOF
 	LossErr
+	// LossErrTimedOut: every read fails with "connection timed out" (ETIMEDOUT wrapped in a
+	// *net.OpError, whose Timeout() is true): what a TCP read returns once a dead peer was given up on
+	LossErrTimedOut
 )
+
+// ErrSimTimedOut is the error of LossErrTimedOut.
+var ErrSimTimedOut error = &net.OpError{Op: "read", Net: "tcp", Err: syscall.ETIMEDOUT}
 
 var ErrSimIO = errors.New("sim: input/output error")
 var ErrSimWrite = errors.New("sim: write error")
@@ -328,6 +336,9 @@ func (t *Transport) Read(n int) ([]byte, error) {
 			case LossErr:
 				t.Events = append(t.Events, Event{Kind: 'I'})
 				return nil, ErrSimIO
+			case LossErrTimedOut:
+				t.Events = append(t.Events, Event{Kind: 'I'})
+				return nil, ErrSimTimedOut
 			}
 		}
 		stalled := t.StallAfter >= 0 && t.Delivered >= t.StallAfter
